@@ -21,6 +21,23 @@ ENV.update({"PATH": "/opt/veriftools/go1.26.8/bin:" + ENV.get("PATH", ""), "GOTO
 ENV.pop("GOWORK", None)
 
 
+CACHE = os.path.join(ROOT, "mutants", ".compiled.json")
+try:
+    COMPILED = json.load(open(CACHE))
+except Exception:
+    COMPILED = {}
+try:
+    HEAD = subprocess.run(["git", "-C", "/repo", "rev-parse", "HEAD"], capture_output=True, text=True).stdout.strip() + \
+        subprocess.run(["git", "-C", "/repo", "status", "--porcelain"], capture_output=True, text=True).stdout
+except Exception:
+    HEAD = ""
+
+
+def diff_key(path):
+    import hashlib
+    return hashlib.sha1((HEAD + open(path, "rb").read().decode("utf-8", "replace")).encode()).hexdigest()
+
+
 def run_one(path, prop, benign):
     name = os.path.basename(path)[:-5]
     tmp = tempfile.mkdtemp(prefix="rainmut.")
@@ -29,9 +46,15 @@ def run_one(path, prop, benign):
         p = subprocess.run(["patch", "-p1", "-s", "--no-backup-if-mismatch", "-i", path], cwd=tmp, capture_output=True, text=True)
         if p.returncode != 0:
             return {"mutant": name, "result": "skipped", "why": "patch does not apply to the current tree"}
-        b = subprocess.run(["go", "build", "./..."], cwd=tmp, env=ENV, capture_output=True, text=True)
-        if b.returncode != 0 and not name.find("_prefix_") >= 0:
-            return {"mutant": name, "result": "skipped", "why": "does not compile"}
+        # compile check (skipped when this diff was already seen to compile on this /repo HEAD;
+        # the analyser's own type check would report a broken tree as exit 2 anyway)
+        ck = diff_key(path)
+        if not COMPILED.get(ck):
+            b = subprocess.run(["go", "build", "./..."], cwd=tmp, env=ENV, capture_output=True, text=True)
+            if b.returncode != 0 and not name.find("_prefix_") >= 0:
+                return {"mutant": name, "result": "skipped", "why": "does not compile"}
+            if b.returncode == 0:
+                COMPILED[ck] = True
         r = subprocess.run([os.path.join(ROOT, "bin", "rainlint"), "-prop", prop, "-repo", tmp, "-verif", ROOT, "-no-evidence"],
                            env=ENV, capture_output=True, text=True)
         viol = [l.strip() for l in r.stdout.splitlines() if l.startswith("  violated")]
@@ -84,6 +107,37 @@ def main():
         print("mutant %-55s %s %s" % (r["mutant"], r["result"], (r.get("violations") or [r.get("why", "")])[0][:150] if (r.get("violations") or r.get("why")) else ""))
     print("mutants: applied=%d killed=%d benign_quiet=%d survived=%d false_alarms=%d skipped=%d" % (
         summ["applied"], summ["killed"], summ["benign_quiet"], len(summ["survived"]), len(summ["false_alarms"]), len(summ["skipped"])))
+    try:
+        json.dump(COMPILED, open(CACHE, "w"))
+    except Exception:
+        pass
+    if "--update-evidence" in sys.argv and prop == "all":
+        # distribute: each property gets its own mutants plus the whole-repository refactorings
+        props = sorted(json.load(open(os.path.join(ROOT, "tools", "manifest_src.json")))["checks"].keys())
+        for p in props:
+            mine = []
+            for r in res:
+                n = r["mutant"]
+                if n.startswith("benign_ALL_"):
+                    bad = [v for v in r.get("violations", []) if v.startswith("PROP " + p + " ")]
+                    rr = dict(r)
+                    rr["result"] = "quiet" if not bad else ("FALSE-ALARM" if " exit=1" in bad[0] else "BROKEN")
+                    rr["violations"] = bad
+                    mine.append(rr)
+                elif re.match(r"(?:benign_)?" + p + "_", n):
+                    mine.append(r)
+            ps = {"applied": sum(1 for r in mine if r["result"] != "skipped"),
+                  "killed": sum(1 for r in mine if r["result"] == "killed"),
+                  "benign_quiet": sum(1 for r in mine if r["result"] == "quiet"),
+                  "survived": [r["mutant"] for r in mine if r["result"] == "SURVIVED"],
+                  "false_alarms": [r["mutant"] for r in mine if r["result"] in ("FALSE-ALARM", "BROKEN")],
+                  "skipped": [r["mutant"] for r in mine if r["result"] == "skipped"],
+                  "details": mine}
+            ev = os.path.join(ROOT, "evidence", p + ".json")
+            if os.path.exists(ev):
+                d = json.load(open(ev))
+                d["coverage"]["mutants"] = ps
+                json.dump(d, open(ev, "w"), indent=1)
     if "--update-evidence" in sys.argv and prop != "all":
         ev = os.path.join(ROOT, "evidence", prop + ".json")
         if os.path.exists(ev):
